@@ -10,6 +10,8 @@ pub enum Point {
     Store(u16),
     /// inside a busy-wait loop
     Spin(&'static str, u16),
+    /// a queue operation of a driver-owned queue just returned
+    After(u16),
 }
 
 /// Payload used to unwind out of a busy-wait loop that can never terminate.
@@ -27,7 +29,7 @@ pub fn area_name(a: Area) -> &'static str {
 
 /// Install the recorder; `step` is the scenario's device scheduler, run after each recorded event.
 pub fn install(mut step: Box<dyn FnMut(Point)>) {
-    set_hook(Some(Box::new(move |ev: &Event| match *ev {
+    set_hook(Some(Box::new(move |ev: &Event<'_>| match *ev {
         Event::Store { queue, area, index } => {
             with_world(|w| w.on_store(queue, area_name(area), index));
             let in_new = with_world(|w| w.queues.get(&queue).map(|q| q.in_new).unwrap_or(true));
@@ -41,6 +43,98 @@ pub fn install(mut step: Box<dyn FnMut(Point)>) {
         }
         Event::Spin { site, queue } => {
             step(Point::Spin(site, queue));
+        }
+        Event::AddBegin { queue, inputs, outputs } => {
+            if with_world(|w| w.external_calls) {
+                return;
+            }
+            let bufs: Vec<serde_json::Value> = inputs
+                .iter()
+                .map(|b| json!({"va":hex(b.as_ptr() as u64),"len":b.len(),"dir":"ToDevice"}))
+                .chain(outputs.iter().map(|b| json!({"va":hex(b.as_ptr() as u64),"len":b.len(),"dir":"FromDevice"})))
+                .collect();
+            let mut all = Vec::new();
+            for o in outputs.iter() {
+                all.extend_from_slice(o);
+            }
+            with_world(|w| {
+                w.cur_q = Some(queue);
+                w.cur_bufs = inputs.iter().map(|b| (b.as_ptr() as usize, b.len())).chain(outputs.iter().map(|b| (b.as_ptr() as usize, b.len()))).collect();
+                w.qev(queue, json!({"e":"AddCall","bufs":bufs,"outdg":crate::out::fnv64(&all)}));
+            });
+        }
+        Event::AddEnd { queue, result } => {
+            if with_world(|w| w.external_calls) {
+                return;
+            }
+            with_world(|w| {
+                w.cur_q = None;
+                w.cur_bufs.clear();
+                match result {
+                    Ok(tok) => w.qev(queue, json!({"e":"AddRet","ok":true,"tok":tok})),
+                    Err(e) => w.qev(queue, json!({"e":"AddRet","ok":false,"err":format!("{:?}", e)})),
+                }
+                if let Some(mut rec) = w.queues.remove(&queue) {
+                    w.full_diff(&mut rec);
+                    w.queues.insert(queue, rec);
+                }
+            });
+            step(Point::After(queue));
+        }
+        Event::PopBegin { queue, token, inputs, outputs } => {
+            if with_world(|w| w.external_calls) {
+                return;
+            }
+            let mut all = Vec::new();
+            for o in outputs.iter() {
+                all.extend_from_slice(o);
+            }
+            with_world(|w| {
+                w.cur_q = Some(queue);
+                w.cur_bufs = inputs.iter().map(|b| (b.as_ptr() as usize, b.len())).chain(outputs.iter().map(|b| (b.as_ptr() as usize, b.len()))).collect();
+                w.cur_outs = outputs.iter().map(|b| (b.as_ptr() as usize, b.len())).collect();
+                w.qev(queue, json!({"e":"PopCall","tok":token,"outdg":crate::out::fnv64(&all)}));
+            });
+        }
+        Event::PopEnd { queue, result } => {
+            if with_world(|w| w.external_calls) {
+                return;
+            }
+            with_world(|w| {
+                let mut all = Vec::new();
+                for (p, l) in w.cur_outs.drain(..) {
+                    all.extend_from_slice(unsafe { std::slice::from_raw_parts(p as *const u8, l) });
+                }
+                w.cur_q = None;
+                w.cur_bufs.clear();
+                match result {
+                    Ok(len) => w.qev(queue, json!({"e":"PopRet","ok":true,"len":len,"outdg":crate::out::fnv64(&all)})),
+                    Err(e) => w.qev(queue, json!({"e":"PopRet","ok":false,"err":format!("{:?}", e)})),
+                }
+                if let Some(mut rec) = w.queues.remove(&queue) {
+                    w.full_diff(&mut rec);
+                    w.queues.insert(queue, rec);
+                }
+            });
+            step(Point::After(queue));
+        }
+        Event::ShouldNotify { queue } => {
+            if with_world(|w| w.external_calls) {
+                return;
+            }
+            with_world(|w| w.qev(queue, json!({"e":"SN"})));
+        }
+        Event::SetDevNotify { queue, enable, done } => {
+            if with_world(|w| w.external_calls) {
+                return;
+            }
+            with_world(|w| {
+                if done {
+                    w.qev(queue, json!({"e":"SdnRet"}))
+                } else {
+                    w.qev(queue, json!({"e":"SdnCall","en":enable}))
+                }
+            });
         }
         #[allow(unreachable_patterns)]
         _ => {}
